@@ -49,7 +49,7 @@ theorem mutation_sites_tie : Gen.mutationSites = Gen.mutationSitesExpected := by
 
 /-- the converter works on a deep clone of the document element -/
 theorem convert_clones_first :
-    Gen.converterConvertBody = ["clone := dom.Clone(root, true)", "domutil.RemoveDuplicateAttributes(clone)",
+    Gen.converterConvertBody = ["clone := domutil.Clone(root, true)", "domutil.RemoveDuplicateAttributes(clone)",
       "domutil.WalkNodes(clone, dc.visitNodeHandler, dc.exitNodeHandler)"] := by rfl
 
 /-- `ApplyForURL` assigns the fetched URL to a copy of the options -/
